@@ -26,6 +26,8 @@ impl LintPass for ControlFlowCheck {
                                 node.node().clone(),
                                 Rc::clone(function),
                             ));
+                            // Create at most one error per node
+                            break;
                         }
                         // Jumps (J not JAL) to the start of recognized
                         // functions are errors
